@@ -222,7 +222,7 @@ impl RwLock {
                     _ => continue,
                 };
 
-                if op.action() == Action::Write {
+                if op.action() == Action::Write && op.is_blocking() {
                     let location = op.location();
                     th.set_blocked(location);
                 }
@@ -257,7 +257,7 @@ impl RwLock {
                 }
 
                 match th.operation.as_ref() {
-                    Some(op) if op.object() == self.state.erase() => {
+                    Some(op) if op.object() == self.state.erase() && op.is_blocking() => {
                         let location = op.location();
                         th.set_blocked(location);
                     }
